@@ -95,6 +95,17 @@ func (rf *Ref) Eval(e *gram.Expr, pos int) []Res {
 			}
 		}
 		return rf.Eval(e.Kids[0], q)
+	case gram.OpRTrim:
+		// RightTrim(p, WsSpacesNl): every result of p ends after the whitespace run that follows it (this mode never fails)
+		var out []Res
+		for _, r := range rf.Eval(e.Kids[0], pos) {
+			q := r.End
+			for q < len(rf.In) && (rf.In[q] == ' ' || rf.In[q] == '\t' || rf.In[q] == '\n' || rf.In[q] == '\f') {
+				q++
+			}
+			out = addRes(out, Res{r.Tree, q})
+		}
+		return out
 	case gram.OpAny:
 		var out []Res
 		for _, k := range e.Kids {
